@@ -604,6 +604,48 @@ def run(tier: str) -> int:
             ch.known_hit(slug, {"template": src, "observed": obs, "expected": expc})
         else:
             ch.violation("impl-violates-spec", "known", {"template": src}, impl=obs, spec={"expected": expc, "clause": f"a different failure than the recorded finding {slug}"})
+    # quoted strings that contain template syntax mean what they mean *in the template they are written in*: the same
+    # text under another {% load %} environment uses that template's filters (and is an error where none is loaded)
+    from django.template import Library, engines
+    eng = engines["django"].engine
+    for lname, fmt_ in (("c02lib_a", "A(%s)"), ("c02lib_b", "B[%s]")):
+        lib_ = Library()
+        lib_.filter("fmt", (lambda v, f=fmt_: f % (v,)))
+        eng.template_libraries[lname] = lib_
+    rl = core.rng(PROP, "load-env")
+    nested_texts = ["{{ x|fmt }}", "pre {{ y|fmt }} post", "{{ x|fmt }}{{ y|fmt }}", "{% firstof x|fmt %}", "{{ x|fmt|upper }}"]
+    rl.shuffle(nested_texts)
+    try:
+        for text in nested_texts:
+            order = [rl.choice(["c02lib_a", "c02lib_b"])]
+            order.append("c02lib_b" if order[0] == "c02lib_a" else "c02lib_a")
+            order += [None, rl.choice(["c02lib_a", "c02lib_b"])]
+            for lname in order:
+                ch.count("load-env", 1, 1)
+                head = ("{% load " + lname + " %}") if lname else ""
+                ctx2 = Context({"x": 7, "y": "q"})
+                try:
+                    want: Any = Template(head + text).render(ctx2)
+                except TemplateSyntaxError:
+                    want = {"err": "TemplateSyntaxError"}
+                HOLDER.clear()
+                try:
+                    Template(head + '{% c02probe val="' + text + '" %}').render(Context({"x": 7, "y": "q"}))
+                    got2: Any = str(HOLDER[-1][1].get("val"))
+                except TemplateSyntaxError:
+                    got2 = {"err": "TemplateSyntaxError"}
+                except Exception as e:  # noqa
+                    got2 = {"err": type(e).__name__}
+                if got2 != want:
+                    ch.violation("impl-violates-spec", "load-env", {"template": head + '{% c02probe val="' + text + '" %}', "loads_in_order": order},
+                                 impl=got2, spec={"stock {{ }} / {% %} in the same template": want})
+                    break
+            else:
+                continue
+            break
+    finally:
+        eng.template_libraries.pop("c02lib_a", None)
+        eng.template_libraries.pop("c02lib_b", None)
     # the repaired defect: a top-level spread keeps its filters
     HOLDER.clear()
     ch.count("fixed", 1, 1)
